@@ -305,11 +305,56 @@ impl<'w> Judge<'w> {
                 use pilota::thrift::TInputProtocol;
                 // the service-call flow starts with the message envelope
                 if !is_call || p.read_message_begin().is_ok() {
-                    let _ = walk_declared(sc, &mut p, &crate::corpus_def::Ty::Struct(def.name), &mut found, 0);
+                    let _ = walk_declared(sc, &mut p, &crate::corpus_def::Ty::Struct(def.name), &mut found, 0, &mut vec![], false);
                 }
             })
         }));
         found
+    }
+
+    /// Where in the declared type did a failed in-memory decode of a generated type stop?
+    /// The input is walked with the same protocol reader the way an emitted decoder reads it;
+    /// when the walk fails, the declared list elements it was inside are known. The emitted
+    /// list decode leaks exactly the elements before the failing one, so "inside element k >= 1
+    /// of a declared list" is what identifies that finding; the error chain alone cannot say it
+    /// (unions add no context to the chain, and a chain through a list field says nothing about k).
+    fn list_element_marker(&self, case: &Case, chain: &str) -> String {
+        let Level::Gen(name) = &case.level else { return String::new() };
+        let (is_call, bare) = match name.strip_prefix("call::") {
+            Some(b) => (true, b),
+            None => (false, name.as_str()),
+        };
+        let plain = bare.strip_prefix("keep::").unwrap_or(bare);
+        let keep = bare.starts_with("keep::");
+        let Some(def) = self.w.schema.get(plain) else { return String::new() };
+        let mut buf = bytes::Bytes::from(case.bytes.clone());
+        let mut found = false;
+        let mut lists: Vec<(String, usize)> = vec![];
+        let mut walk_failed = false;
+        let sc = &self.w.schema;
+        let _ = std::panic::catch_unwind(std::panic::AssertUnwindSafe(|| {
+            crate::with_mem_proto!(case.proto, &mut buf, |p| {
+                use pilota::thrift::TInputProtocol;
+                if !is_call || p.read_message_begin().is_ok() {
+                    walk_failed = walk_declared(sc, &mut p, &crate::corpus_def::Ty::Struct(def.name), &mut found, 0, &mut lists, keep).is_err();
+                }
+            })
+        }));
+        if std::env::var("VERIF_DEBUG_WALK").is_ok() {
+            let _ = std::fs::write("/tmp/walk.log", format!("walk: failed={} lists={:?} remaining={}\n", walk_failed, lists, buf.len()));
+        }
+        if walk_failed {
+            match lists.iter().find(|(_, i)| *i >= 1) {
+                Some((t, _)) => format!(" ~list-element>=1 of {}", t),
+                None => " ~not-past-a-list-element".into(),
+            }
+        } else if decode_path(self.w, &case.level, chain).contains("list<") {
+            // the bytes are well-formed for the declared type and the decoder rejected them for their
+            // content (a missing required field, two union fields): only the chain can place that
+            " ~list-on-error-chain".into()
+        } else {
+            String::new()
+        }
     }
 
     fn plain_twin_agrees(&self, case: &Case, plain: &str) -> bool {
@@ -580,8 +625,9 @@ impl<'w> Judge<'w> {
         }
         if is_err {
             self.stats.bump("c19.failed_decodes_measured");
+            let marker = if leg == "mem" && ((deltas[1] > 0 && deltas[2] > 0) || !unique) { self.list_element_marker(case, &chain) } else { String::new() };
             if deltas[1] > 0 && deltas[2] > 0 {
-                let site = format!("{}/{}/{}", leg, level_key(&case.level), decode_path(self.w, &case.level, &chain));
+                let site = format!("{}/{}/{}{}", leg, level_key(&case.level), decode_path(self.w, &case.level, &chain), marker);
                 v.push(viol(case, "leak", site, format!("{} live bytes remain after each failed decode (repetitions: {:?})", deltas[2], deltas)));
             } else if deltas[0] > 0 {
                 self.stats.bump("info.first_run_only_growth");
@@ -591,7 +637,8 @@ impl<'w> Judge<'w> {
             // repeated in a burst; any growth of live bytes across the burst is a leak (one-time
             // initialisation has already happened during the three repetitions above).
             if case.idx % 32 == 0 && !(deltas[1] > 0 && deltas[2] > 0) {
-                let reps = 1500;
+                // 1500 repetitions for ordinary inputs, fewer for very long ones (the cost is per byte)
+                let reps = (6_000_000 / (case.bytes.len() + 1)).clamp(60, 1500);
                 let before = alloc::live();
                 for _ in 0..reps {
                     let o = self.c19_leg(case, caps, tag);
@@ -605,7 +652,7 @@ impl<'w> Judge<'w> {
                 }
             }
             if !unique {
-                let site = format!("{}/{}/{}", leg, level_key(&case.level), decode_path(self.w, &case.level, &chain));
+                let site = format!("{}/{}/{}{}", leg, level_key(&case.level), decode_path(self.w, &case.level, &chain), marker);
                 v.push(viol(case, "input_retained", site, "the input buffer is still shared after the error was dropped".into()));
             }
         }
@@ -711,6 +758,8 @@ fn walk_declared<P: pilota::thrift::TInputProtocol>(
     t: &crate::corpus_def::Ty,
     found: &mut bool,
     depth: usize,
+    lists: &mut Vec<(String, usize)>,
+    keep: bool,
 ) -> Result<(), pilota::thrift::ThriftException> {
     use crate::corpus_def::{Kind, Ty};
     use pilota::thrift::TType;
@@ -718,7 +767,7 @@ fn walk_declared<P: pilota::thrift::TInputProtocol>(
         return Err(pilota::thrift::new_protocol_exception(pilota::thrift::ProtocolExceptionKind::Unknown, "harness:walk-depth"));
     }
     match t {
-        Ty::Alias(_, inner) => walk_declared(sc, p, inner, found, depth),
+        Ty::Alias(_, inner) => walk_declared(sc, p, inner, found, depth, lists, keep),
         Ty::Bool => p.read_bool().map(|_| ()),
         Ty::I8 => p.read_i8().map(|_| ()),
         Ty::I16 => p.read_i16().map(|_| ()),
@@ -729,29 +778,37 @@ fn walk_declared<P: pilota::thrift::TInputProtocol>(
         Ty::Uuid => p.read_uuid().map(|_| ()),
         Ty::List(e) => {
             let id = p.read_list_begin()?;
-            for _ in 0..id.size {
-                walk_declared(sc, p, e, found, depth + 1)?;
+            // which declared list element the walk is in: left on the stack when the walk fails
+            for i in 0..id.size {
+                lists.push((ty_name(t), i));
+                walk_declared(sc, p, e, found, depth + 1, lists, keep)?;
+                lists.pop();
             }
             p.read_list_end()
         }
         Ty::Set(e) => {
             let id = p.read_set_begin()?;
             for _ in 0..id.size {
-                walk_declared(sc, p, e, found, depth + 1)?;
+                walk_declared(sc, p, e, found, depth + 1, lists, keep)?;
             }
             p.read_set_end()
         }
         Ty::Map(k, v) => {
             let id = p.read_map_begin()?;
             for _ in 0..id.size {
-                walk_declared(sc, p, k, found, depth + 1)?;
-                walk_declared(sc, p, v, found, depth + 1)?;
+                walk_declared(sc, p, k, found, depth + 1, lists, keep)?;
+                walk_declared(sc, p, v, found, depth + 1, lists, keep)?;
             }
             p.read_map_end()
         }
         Ty::Struct(n) => {
             let Some(def) = sc.get(n) else { return Ok(()) };
+            let refuse = |m: &'static str| pilota::thrift::new_protocol_exception(pilota::thrift::ProtocolExceptionKind::InvalidData, m);
             p.read_struct_begin()?;
+            // what the emitted decoders refuse for its content: a second known field of a union, an
+            // empty union, a required field that never arrived
+            let mut known_seen = 0usize;
+            let mut seen: Vec<i16> = vec![];
             loop {
                 let f = p.read_field_begin()?;
                 if f.field_type == TType::Stop {
@@ -760,16 +817,36 @@ fn walk_declared<P: pilota::thrift::TInputProtocol>(
                 let decl = def.fields.iter().find(|d| Some(d.id) == f.id);
                 match decl {
                     Some(d) if def.kind == Kind::Union || crate::tval::wire_type(&d.ty) == f.field_type as u8 => {
-                        walk_declared(sc, p, &d.ty, found, depth + 1)?;
+                        known_seen += 1;
+                        if def.kind == Kind::Union && known_seen > 1 {
+                            return Err(refuse("harness:walk second union field"));
+                        }
+                        seen.push(d.id);
+                        walk_declared(sc, p, &d.ty, found, depth + 1, lists, keep)?;
                     }
                     _ => {
                         *found = true;
                         p.skip(f.field_type)?;
+                        // with keep_unknown_fields a union retains an unknown field as its value
+                        // (declared unions only: the synthesized service result / exception enums skip it)
+                        if keep && def.kind == Kind::Union && !def.name.starts_with("Svc") {
+                            known_seen += 1;
+                            if known_seen > 1 {
+                                return Err(refuse("harness:walk second union field"));
+                            }
+                        }
                     }
                 }
                 p.read_field_end()?;
             }
-            p.read_struct_end()
+            p.read_struct_end()?;
+            if def.kind == Kind::Union && known_seen == 0 {
+                return Err(refuse("harness:walk empty union"));
+            }
+            if def.kind != Kind::Union && def.fields.iter().any(|d| d.req == crate::corpus_def::Req::Required && d.default.is_none() && !seen.contains(&d.id)) {
+                return Err(refuse("harness:walk required field missing"));
+            }
+            Ok(())
         }
     }
 }
